@@ -37,6 +37,12 @@ def vmono() -> float:
     return MONO0 + _State.vt
 
 
+def burn(seconds: float) -> None:
+    """Synchronous passage of virtual time: what blocking / CPU-bound code inside a task does to every other task of the loop."""
+    if seconds > 0:
+        _State.vt += seconds
+
+
 def install() -> None:
     if _State.installed:
         return
